@@ -14,7 +14,7 @@ CHUNK = 20
 COQ_TAGF, COQ_TAG_NAMES = c11.COQ_TAGF, c11.COQ_TAG_NAMES
 N = {"quick": 240, "thorough": 2400}
 RULE = ("as C11 plus an edge-case stream (a single variable, isolated variables, Matrix labels with gaps, high-degree terms, "
-        "models without couplings, models whose terms cancelled, empty and all-zero schedules, num_anneals up to 4, with and "
+        "models without couplings, models whose terms cancelled, one dense model on ten spins (1023 terms),  empty and all-zero schedules, num_anneals up to 4, with and "
         "without initial state, both visiting orders); all calls of a run are executed IN SEQUENCE IN ONE PROCESS through an "
         "-fsanitize=address,undefined build of the extension made from /repo's C sources; outputs are compared with the model; "
         "non-trivial = at least two spins and one coupling; distinct by canonical JSON")
@@ -60,7 +60,21 @@ def edge_case(rng):
     return c
 
 
+def dense_case(rng):
+    """every product of ten spins (1023 terms, each spin in 512 of them): per-spin term lists far longer than any block a
+    kernel might allocate them in; one per run (index 11), a short schedule"""
+    import itertools
+    c = A.gen_case(rng, "quick", ("zero", "pos"))
+    t = [(k, F(rng.choice([-3, -2, -1, 1, 2, 3]))) for d in range(1, 11) for k in itertools.combinations(range(10), d)]
+    c.update({"fn": 1, "kind": rng.choice([None, "PUSOMatrix"]), "terms": G.jraw(t), "upd": [], "init": None, "num": 1,
+              "remap": None})
+    c["Ts"], c["sched"] = (c["Ts"] or [[1, 1]])[:2], None
+    return c
+
+
 def gen(rng, i, tier):
+    if i == 11 or (tier != "quick" and i % 200 == 11):
+        return dense_case(rng)
     return edge_case(rng) if rng.random() < 0.3 else A.gen_case(rng, tier, c11.MODES)
 
 
